@@ -40,6 +40,8 @@ const (
 	BFatalNil
 	BOtherFailNow
 	BOtherRequire
+	BPanicEmpty
+	BHelperPanic
 	NumBehaviours
 )
 
@@ -50,12 +52,13 @@ var OtherHandle atomic.Pointer[f1testing.T]
 var BehaviourNames = []string{"pass", "Fail", "FailNow", "Error", "Errorf", "Fatal", "Fatalf", "assert", "require",
 	"panic(error)", "panic(string)", "panic(int)", "panic(struct)", "nil-map-write", "index-out-of-range", "nil-deref",
 	"panic(error-with-permissive-Is)", "panic(nil)", "panic(error-named-FailNow)", "panic([]int)", "panic(slice-typed error)", "panic(map)",
-	"Error(nil)", "Fatal(nil)", "FailNow-on-the-setup-handle", "require-on-the-setup-handle"}
+	"Error(nil)", "Fatal(nil)", "FailNow-on-the-setup-handle", "require-on-the-setup-handle",
+	"panic(\"\")", "panic-in-helper-goroutine-guarded-by-CheckResults"}
 
 // Stops reports whether the behaviour ends the function at that point.
 func Stops(kind int) bool {
 	switch kind {
-	case BPass, BFail, BError, BErrorf, BAssert:
+	case BPass, BFail, BError, BErrorf, BAssert, BHelperPanic:
 		return false
 	}
 	return true
@@ -141,6 +144,17 @@ func Behave(t *f1testing.T, kind int) {
 			o.FailNow()
 		}
 		t.FailNow()
+	case BPanicEmpty:
+		panic("")
+	case BHelperPanic:
+		// work done in a helper goroutine that is guarded the way f1 guards the body itself; the function
+		// waits for the guard's signal and then carries on: the helper's panic fails it
+		done := make(chan struct{})
+		go func() {
+			defer f1testing.CheckResults(t, done)
+			panic("planned panic in a helper goroutine")
+		}()
+		<-done
 	case BOtherRequire:
 		if o := OtherHandle.Load(); o != nil {
 			o.Require().True(false, "planned failed require on the other handle")
